@@ -367,8 +367,8 @@ func alphabet() []string {
 		0xc0, 0xc1, 0xc2, 0xdf, 0xe0, 0xe1, 0xec, 0xed, 0xee, 0xef, 0xf0, 0xf1, 0xf3, 0xf4, 0xf5, 0xff} {
 		a = append(a, string([]byte{b}))
 	}
-	a = append(a, "é", "€", "\U0001F600", " ", " ", "�", "퟿", "", "\U0010ffff",
-		"\u0080", "߿", "ࠀ", "￿", "\U00010000",
+	a = append(a, "\u00e9", "\u20ac", "\U0001F600", "\u2028", "\u2029", "\ufffd", "\ud7ff", "\ue000", "\U0010ffff",
+		"\u0080", "\u07ff", "\u0800", "\uffff", "\U00010000",
 		"\xed\xa0\x80", "\xc0\x80", "\xe0\x80\x80", "\xf0\x80\x80\x80", "\xf4\x90\x80\x80", "\xe2\x82", "\xf0\x9f\x98")
 	return a
 }
@@ -682,7 +682,7 @@ func runContainers(c *Ctx) {
 	// fixed shapes
 	vals = append(vals, []any{}, map[string]any{}, []any{[]any{}}, map[string]any{"": map[string]any{}}, []any{[]any{}, map[string]any{}, []any{map[string]any{"a": []any{}}}},
 		[]any{nil, true, false, 0, 1.5, "s", json.Number("1.0"), big.NewInt(7)},
-		map[string]any{"b": 1, "a": 2, "ab": 3, "B": 4, "": 5, "a\x00": 6, "\xff": 7, "é": 8, "a b": 9, "\"": 10},
+		map[string]any{"b": 1, "a": 2, "ab": 3, "B": 4, "": 5, "a\x00": 6, "\xff": 7, "\u00e9": 8, "a b": 9, "\"": 10},
 		nested(5, false, "x"), nested(5, true, nil), nested(40, false, []any{}), nested(40, true, map[string]any{}),
 		nested(70, false, 1.5), nested(130, true, "deep"))
 	g := genOpts{maxDepth: 5, maxWidth: 5, strLen: 12}
@@ -780,7 +780,7 @@ func runRun(c *Ctx) {
 		}
 	}
 	g := genOpts{jsonable: true, maxDepth: 4, maxWidth: 4, strLen: 10}
-	vals := []any{"plain", "nul\x00inside", "", json.Number("1.0"), nil, []any{}, map[string]any{"a": []any{json.Number("1"), "x", map[string]any{}}}, "line\nbreak   \"q\""}
+	vals := []any{"plain", "nul\x00inside", "", json.Number("1.0"), nil, []any{}, map[string]any{"a": []any{json.Number("1"), "x", map[string]any{}}}, "line\nbreak \u2028 \"q\""}
 	for i := 0; i < c.N; i++ {
 		vals = append(vals, genValue(rng, g, 0))
 	}
@@ -831,7 +831,7 @@ func runYAML(c *Ctx) {
 	rng := c.Rng
 	g := genOpts{jsonable: true, maxDepth: 4, maxWidth: 4, strLen: 10}
 	vals := []any{nil, true, "", "a", "null", "~", "true", "1", "1.5", "1e3", "0x10", "yes", "- a", "a: b", "#c", " lead", "trail ", "multi\nline", "tab\there",
-		"é€\U0001F600", " ", "'", "\"", "[1]", "{}", "---", "...", "|", ">", "!tag", "&a", "*a", "%d", "@x", "`x", "2001-01-01", "0o7", "1_000", ".inf", ".nan", "~x", "? a",
+		"\u00e9\u20ac\U0001F600", "\u2028", "\u0085", "\u00a0", "\ufeff", "'", "\"", "[1]", "{}", "---", "...", "|", ">", "!tag", "&a", "*a", "%d", "@x", "`x", "2001-01-01", "0o7", "1_000", ".inf", ".nan", "~x", "? a",
 		[]any{}, map[string]any{}, []any{[]any{}, map[string]any{}}, map[string]any{"a": []any{json.Number("1"), json.Number("2.5"), nil, "x"}, "b": map[string]any{"": ""}},
 		json.Number("0"), json.Number("-1"), json.Number("123456789012"), json.Number("1.5"), json.Number("-0.25"), json.Number("1e100")}
 	for i := 0; i < c.N; i++ {
